@@ -823,6 +823,35 @@ def other_environment_body(modname, base_subcheck, envs):
     return body
 
 
+# interpreters started with -O / -OO (assert statements and docstrings stripped), the last one also without a UTF-8
+# locale and in another time zone
+ENVS_OPTIMIZED = [
+    {"PYTHONOPTIMIZE": "1"},
+    {"PYTHONOPTIMIZE": "2"},
+    {"PYTHONOPTIMIZE": "1", "LC_ALL": "C", "LANG": "C", "PYTHONUTF8": "0", "PYTHONCOERCECLOCALE": "0", "TZ": "Asia/Kolkata"},
+]
+
+
+def env_variant(modname, base_sc, envs=None, quick=2, thorough=40, cases=(6, 10)):
+    """A sub-check that re-runs generated cases of `base_sc` in fresh interpreters with another process environment."""
+    from hypothesis import strategies as st
+
+    envs = ENVS_OPTIMIZED if envs is None else envs
+
+    def strat(tier):
+        return st.fixed_dictionaries({"cases": st.lists(base_sc.get_strategy(tier), min_size=cases[0], max_size=cases[1]), "env": st.sampled_from(list(range(len(envs))))})
+
+    return SubCheck(
+        base_sc.name + "_other_environment",
+        strat,
+        other_environment_body(modname, base_sc.name, envs),
+        lambda labels: True,
+        {"quick": quick, "thorough": thorough},
+        doc=f"generated '{base_sc.name}' cases re-run in a fresh interpreter under python -O / -OO (assert statements stripped; one variant also without a UTF-8 locale and in another time zone): the verdict is the base sub-check's own oracle evaluated in the child",
+        shrink=False,
+    )
+
+
 EDIT_LEVELS = ["leaf", "submodel", "section", "holder"]
 
 
